@@ -754,22 +754,3 @@ example (d : Val) : search (sliceText none none (some (some 0))) d = .err [.inva
 
 end Jmes.C12B
 
-#print axioms Jmes.C12B.slice_string_spec
-#print axioms Jmes.C12B.sliceStep_string_spec
-#print axioms Jmes.C12B.sliceStep_string_spec_getElem
-#print axioms Jmes.C12B.slice_of_string_no_projection
-#print axioms Jmes.C12B.slice_of_array_projects
-#print axioms Jmes.C12B.nonslice_string_projects_to_null
-#print axioms Jmes.C12B.project_sliceStep_string
-#print axioms Jmes.C12B.project_sliceStep_array
-#print axioms Jmes.C12B.compile_sliceText
-#print axioms Jmes.C12B.compile_field_sliceText
-#print axioms Jmes.C12B.compile_sliceText_error_iff
-#print axioms Jmes.C12B.search_sliceText_string
-#print axioms Jmes.C12B.search_sliceText_array
-#print axioms Jmes.C12B.compile_steps_nonzero
-#print axioms Jmes.C12B.compile_slice_args_int64
-#print axioms Jmes.C12B.only_step_zero_errors'
-#print axioms Jmes.C12B.slice_enum_nondet
-#print axioms Jmes.C12B.sliceStep_enum_nondet
-#print axioms Jmes.C12B.sliceStep_array_spec_anyTag
